@@ -242,8 +242,28 @@ Definition xref_and_trailer (buf : bytes) (start : N) : lstep (xref * dict) :=
   | r => of_xres r
   end.
 
+(* Reader::merge_xref_stream(xref, start): when [start] is an integer, the cross-reference section at that
+   offset is merged into [xref] (entries already present win); anything else is ignored *)
+Definition merge_xref_stream (buf : bytes) (x : xref) (start : option obj) : lstep xref :=
+  match start with
+  | Some (OInt q) =>
+    if (q <? 0)%Z || (blen buf <? Z.to_N q) then SErr LeStreamStart
+    else
+      match xref_and_trailer buf (Z.to_N q) with
+      | SOk (sx, _) => SOk (xref_merge x sx)
+      | SErr e => SErr e
+      | SPanic => SPanic
+      | SOut => SOut
+      | SUnm => SUnm
+      end
+  | _ => SOk x
+  end.
+
 (* the loop over Prev; [seen] = already_seen.  Every iteration adds a new value in 0..len to
-   [seen], so fuel = len + 2 is never exhausted. *)
+   [seen], so fuel = len + 2 is never exhausted.  Order inside one iteration (since /repo 4ad1a1a):
+   bounds of prev; the XRefStm of the newest trailer (removed on the way, so it is there in the first
+   iteration only) is merged into xref; the Prev section is read; the XRefStm of the Prev section's own
+   trailer is merged into that section; the section is merged into xref. *)
 Fixpoint prev_loop (fuel : nat) (buf : bytes) (x : xref) (t : dict) (prev : option obj) (seen : list Z)
   : lstep (xref * dict) :=
   match prev with
@@ -255,24 +275,22 @@ Fixpoint prev_loop (fuel : nat) (buf : bytes) (x : xref) (t : dict) (prev : opti
       | S f =>
         if (p <? 0)%Z || (blen buf <? Z.to_N p) then SErr LePrevStart
         else
-          match xref_and_trailer buf (Z.to_N p) with
-          | SOk (px, pt) =>
-            let x1 := xref_merge x px in
-            (* hybrid-reference file: XRefStm of the MAIN trailer, removed on the way *)
-            let stm := dict_get t K_XRefStm in
+          match merge_xref_stream buf x (dict_get t K_XRefStm) with
+          | SOk x1 =>
             let t1 := dict_swap_remove t K_XRefStm in
-            match stm with
-            | Some (OInt q) =>
-              if (q <? 0)%Z || (blen buf <? Z.to_N q) then SErr LeStreamStart
-              else
-                match xref_and_trailer buf (Z.to_N q) with
-                | SOk (sx, _) => prev_loop f buf (xref_merge x1 sx) t1 (dict_get pt K_Prev) (p :: seen)
-                | SErr e => SErr e
-                | SPanic => SPanic
-                | SOut => SOut
-                | SUnm => SUnm
-                end
-            | _ => prev_loop f buf x1 t1 (dict_get pt K_Prev) (p :: seen)
+            match xref_and_trailer buf (Z.to_N p) with
+            | SOk (px, pt) =>
+              match merge_xref_stream buf px (dict_get pt K_XRefStm) with
+              | SOk px1 => prev_loop f buf (xref_merge x1 px1) t1 (dict_get pt K_Prev) (p :: seen)
+              | SErr e => SErr e
+              | SPanic => SPanic
+              | SOut => SOut
+              | SUnm => SUnm
+              end
+            | SErr e => SErr e
+            | SPanic => SPanic
+            | SOut => SOut
+            | SUnm => SUnm
             end
           | SErr e => SErr e
           | SPanic => SPanic
